@@ -93,11 +93,30 @@ def failing_decls(out: str) -> list[str]:
     return sorted(set(re.findall(r'error: (\S+\.lean:\d+):\d+', out)))
 
 
-def grep_forbidden() -> list[str]:
-    hits = []
-    for p in sorted(LEAN.rglob('*.lean')):
-        if '.lake' in p.parts:
+def import_closure(modules: list[str]) -> list[Path]:
+    """Files of this project reachable through `import` from the given modules."""
+    seen: dict[str, Path] = {}
+    todo = list(modules)
+    while todo:
+        m = todo.pop()
+        if m in seen:
             continue
+        path = LEAN / (m.replace('.', '/') + '.lean')
+        if not path.exists():
+            continue
+        seen[m] = path
+        for line in path.read_text().splitlines():
+            mm = re.match(r'^import\s+(\S+)', line)
+            if mm and (mm.group(1).startswith('ExaModel') or mm.group(1).startswith('Drv')):
+                todo.append(mm.group(1))
+    return sorted(seen.values())
+
+
+def grep_forbidden(modules: list[str] | None = None) -> list[str]:
+    """Forbidden constructs in the files the given modules depend on (whole tree if None)."""
+    hits = []
+    files = import_closure(modules) if modules else sorted(p for p in LEAN.rglob('*.lean') if '.lake' not in p.parts)
+    for p in files:
         in_block = 0
         for i, line in enumerate(p.read_text().splitlines(), 1):
             code = line
@@ -310,7 +329,7 @@ def run_check(prop: str, tier: str, seed: int, module: Any) -> int:
         broken.append('proof obligations do not check: ' + ', '.join(failing_decls(outp) or failing))
 
     # 3. audit
-    hits = grep_forbidden()
+    hits = grep_forbidden(theorem_modules + ['Drv.' + d[4:].capitalize() for d in drivers])
     if hits:
         log('forbidden constructs in the Lean tree:\n' + '\n'.join(hits))
         return 2
